@@ -72,9 +72,9 @@ Section RW.
     destruct (k =? RawHTMLKind).
     { rewrite Hraw. constructor. }
     destruct (k =? SoftLineBreakKind).
-    { destruct (softBreak c =? 2); [apply br_safe|]. destruct (softBreak c =? 1); [apply S_text; reflexivity|].
+    { destruct (softBreak c =? 2); [apply br_safe; assumption|]. destruct (softBreak c =? 1); [apply S_text; reflexivity|].
       destruct (0 <? e - s); [apply S_text; exact Hsoft | apply S_text; reflexivity]. }
-    destruct (k =? HardLineBreakKind); [apply br_safe|].
+    destruct (k =? HardLineBreakKind); [apply br_safe; assumption|].
     destruct (Z.eqb_spec k EmphasisKind) as [->|_]; [apply elem0_safe; [assumption|reflexivity|apply Hkids; reflexivity]|].
     destruct (Z.eqb_spec k StrongKind) as [->|_]; [apply elem0_safe; [assumption|reflexivity|apply Hkids; reflexivity]|].
     destruct (Z.eqb_spec k CodeSpanKind) as [->|_]; [apply elem0_safe; [assumption|reflexivity|apply Hkids; reflexivity]|].
